@@ -145,10 +145,21 @@ func implBind(c bindCase) (o bindObs) {
 		}
 		return bindObs{line: "PREPARE-ERR " + classifyBindErr(msg), prepErr: msg}
 	}
-	// A Statement is an immutable value: what a run produces does not depend on earlier runs.  In a
-	// third of the cases the Statement has already been run with arguments of another shape (other
-	// zero pattern of the omitempty members, other slice lengths) or with arguments that contribute
-	// nothing, and in some of those the observed run is on a Statement prepared afterwards.
+	sqldb, f := openFake()
+	defer dropFakeDB(f.name)
+	defer sqldb.Close()
+	f.rowsFor = func(sql string, _ []driver.NamedValue) *rowsScript {
+		rs := defaultRows(sql)
+		rs.Rows = nil
+		return rs
+	}
+	db := sqlair.NewDB(sqldb)
+	// A Statement is an immutable value and the statement cache is keyed by the generated SQL: what a
+	// run sends to the driver does not depend on earlier runs.  In a third of the cases the Statement
+	// has already been run on this DB with arguments of another shape (other zero pattern of the
+	// omitempty members, other slice lengths) or with arguments that contribute nothing, and in some
+	// of those the observed run is on a Statement prepared afterwards.
+	pos := 0
 	if h := strHash(c.query); h%3 == 0 && len(c.args) > 0 {
 		wr := newRng(h)
 		var other []any
@@ -161,25 +172,17 @@ func implBind(c bindCase) (o bindObs) {
 		}
 		func() {
 			defer func() { recover() }()
-			runOnce(stmt, other)
+			db.Query(context.Background(), stmt, other...).Run()
 		}()
 		if h%5 == 0 {
 			if stmt2, err2 := sqlair.Prepare(c.query, c.samples...); err2 == nil {
 				stmt = stmt2
 			}
 		}
+		pos = len(f.log())
 	}
-	sqldb, f := openFake()
-	defer dropFakeDB(f.name)
-	defer sqldb.Close()
-	f.rowsFor = func(sql string, _ []driver.NamedValue) *rowsScript {
-		rs := defaultRows(sql)
-		rs.Rows = nil
-		return rs
-	}
-	db := sqlair.NewDB(sqldb)
 	err = db.Query(context.Background(), stmt, c.args...).Run()
-	evs := f.log()
+	evs := f.log()[pos:]
 	var prep, run *event
 	for i := range evs {
 		switch evs[i].Kind {
@@ -193,11 +196,15 @@ func implBind(c bindCase) (o bindObs) {
 			}
 		}
 	}
-	if prep == nil {
+	if prep == nil && run == nil {
 		if err == nil {
 			return bindObs{line: "NO-EVENTS-NO-ERROR"}
 		}
 		return bindObs{line: "QUERY-ERR " + classifyBindErr(err.Error()), qErr: err.Error()}
+	}
+	// the SQL of the driver statement that was executed (the one prepared just now, or the cached one)
+	if run != nil {
+		prep = &event{SQL: run.SQL}
 	}
 	o.sql = prep.SQL
 	kind := "E"
